@@ -123,3 +123,40 @@ def aappend(a: "AttrList", b: "AttrList") -> "AttrList":
             return b
         case ACons(k, v, tl):
             return ACons(k, v, aappend(tl, b))
+
+
+# the right operand of HTML.__add__ / left operand of HTML.__radd__: a str, an HTML, or any other object (with its str())
+adt(AddArg=dict(APlain=dict(s=Str), AHtml=dict(s=Str), AObj=dict(s=Str)))
+
+
+@spec
+def addPiece(o: "AddArg") -> Str:
+    "what the operand contributes to the concatenation: HTML() verbatim, everything else escaped once as text"
+    match o:
+        case AHtml(h):
+            return h
+        case APlain(s):
+            return escT(s)
+        case AObj(s):
+            return escT(s)
+
+
+@spec
+def addAny(a: "AttrVal", o: "AddArg") -> "AttrVal":
+    "HTML.__add__(a, o)"
+    return RawV(strOf(a) + addPiece(o))
+
+
+@spec
+def raddAny(a: "AttrVal", o: "AddArg") -> "AttrVal":
+    "HTML.__radd__(a, o) = o + a"
+    return RawV(addPiece(o) + strOf(a))
+
+
+@spec
+def isAHtml(o: "AddArg") -> Bool:
+    match o:
+        case AHtml(h):
+            return True
+        case _:
+            return False
